@@ -11,7 +11,8 @@ and runs `text` with `data` bound to `$`:
   ctxdata    yaql.create_context-style: the document is bound by the host (`context['$'] = convert_input_data(data)`,
              what Statement.evaluate does) on a child context, then evaluate(context=that child)
   iface      YaqlInterface(child, engine)(text') with the document as the first positional argument; `$` in the text
-             is spelled `$1` there - only used when the text allows that rewriting (see `iface_text`)
+             is spelled `$1` there - only used when the text allows that rewriting (see `iface_text`) and only when a
+             check names it in `allow` (it is not among the default paths)
 
 Checks call `paths.evaluate(engine, root, text, data)` instead of `engine(text).evaluate(..)`; the statistics of the paths
 taken go into the evidence (`paths.HIST`)."""
@@ -41,6 +42,14 @@ def pick(text, salt=0, allow=('plain', 'plain', 'reuse', 'copy', 'percall', 'ctx
     return allow[(zlib.crc32(text.encode('utf8', 'replace')) + salt) % len(allow)]
 
 
+def iface_text(text):
+    """`text` with `$` spelled `$1` (the same variable: the context normalises `$` to `$1`), or None when the text
+    holds a string literal (a `$` inside one must stay)"""
+    if "'" in text or '"' in text or '`' in text:
+        return None
+    return re.sub(r'\$(?![A-Za-z0-9_])', '$1', text)
+
+
 def evaluate(engine, root, text, data, salt=0, allow=None, statement_cache=None):
     """-> the finalised result (exceptions propagate)"""
     from yaql.language import utils
@@ -67,6 +76,15 @@ def evaluate(engine, root, text, data, salt=0, allow=None, statement_cache=None)
                 ctx['$'] = data
             return st.evaluate(context=ctx)
         return st.evaluate(data=data, context=ctx)
+    if how == 'iface':
+        # the interface converts its arguments and its result whatever the engine's options say: the same meaning only
+        # for an engine with both conversions on - otherwise (or when the text cannot be respelled) the plain path
+        from yaql import yaql_interface
+        t1 = iface_text(text)
+        o = engine.options
+        if t1 is None or hasattr(data, '__next__') or not (o.get('yaql.convertInputData', True) and o.get('yaql.convertOutputData', True)):
+            return engine(text).evaluate(data=data, context=ctx)
+        return yaql_interface.YaqlInterface(ctx, engine)(t1, data)
     opts = dict(engine.options) or {'yaql.convertInputData': True}
     if how == 'copy':
         try:
